@@ -100,59 +100,90 @@ Theorem c16_fallback_is_combinator is_space compiles s :
 Proof. reflexivity. Qed.
 
 (* ---------- print / parse round-trip ---------- *)
-(* PARTIAL. Proved for the matchers Matcher.String prints in its OpenMetrics form: non-empty valid-UTF-8 name with
-   no reserved rune (so the name is printed bare), ANY valid-UTF-8 value (quotes, backslashes, newlines, braces,
-   commas, operators, blanks, NUL, multi-byte runes, ...), all four operators (regexp values must compile), for
-   every is_space / is_print / compiles table; single matcher and braced list of any length, UTF-8 parser.
-   Missing (checked on every run by the harness oracle and by prop_case, not proved):
-   (1) names containing a reserved rune, which are printed with strconv.Quote on both sides (needs
-       Unquote (Quote s) = s for valid UTF-8 s, given is_print LF = false);
-   (2) fallback and classic mode for lists and for non-classic names: that the classic parser, on a printed text,
-       either rejects it or returns the same matchers (c16_fallback_roundtrip_partial reduces the fallback clause to
-       exactly that). For a single matcher with a classic name all three modes are proved below
-       (c16_classic_roundtrip_partial, c16_all_modes_roundtrip_partial). *)
-Theorem c16_roundtrip_partial is_space is_print compiles m :
-  plain is_space compiles m ->
-  utf8_matchers is_space compiles (print_b is_space is_print m) = Ok [m].
-Proof. exact (roundtrip_single is_space is_print compiles m). Qed.
-
-Theorem c16_roundtrip_list_partial is_space is_print compiles ms :
-  Forall (plain is_space compiles) ms ->
-  utf8_matchers is_space compiles (print_list_b is_space is_print ms) = Ok ms.
-Proof. exact (roundtrip_list is_space is_print compiles ms). Qed.
-
-Theorem c16_fallback_roundtrip_partial is_space is_print compiles ms :
-  Forall (plain is_space compiles) ms ->
-  (forall c, classic_matchers is_space compiles (print_list_b is_space is_print ms) = Ok c -> c = ms) ->
-  compat_matchers is_space compiles Fallback (print_list_b is_space is_print ms) = Ok ms.
-Proof.
-  intros Hp Hc. simpl. rewrite (roundtrip_list is_space is_print compiles ms Hp).
-  exact (fallback_roundtrip_cond _ ms (classic_matchers_no_panic is_space compiles _) Hc).
-Qed.
-
-(* PARTIAL (single matcher only). When moreover the name is a classic label name (a letter, underscore or colon, then letters, digits, underscores, colons), the
-   classic parser (the regexp recogniser + its unescape loop) returns the identical matcher from the printed text,
-   and so do compat.Matcher in classic, UTF-8-strict and fallback mode. Missing: the list form {m1,...,mn} through
-   the classic quote-aware comma split. *)
-Theorem c16_classic_roundtrip_partial is_space is_print compiles m :
-  plain is_space compiles m -> cname (b_name m) = true ->
-  classic_matcher compiles (print_b is_space is_print m) = Ok m.
-Proof. exact (classic_roundtrip_single is_space is_print compiles m). Qed.
-
-Theorem c16_all_modes_roundtrip_partial is_space is_print compiles m :
-  plain is_space compiles m -> cname (b_name m) = true ->
-  compat_matcher is_space compiles Fallback (print_b is_space is_print m) = Ok m /\
-  compat_matcher is_space compiles Classic (print_b is_space is_print m) = Ok m /\
-  compat_matcher is_space compiles Utf8Strict (print_b is_space is_print m) = Ok m.
-Proof. exact (fallback_roundtrip_single_classic is_space is_print compiles m). Qed.
-
-(* the sub-class, spelled out *)
-Theorem c16_plain_meaning is_space compiles m :
-  plain is_space compiles m <->
-  b_name m <> [] /\ valid_utf8 (b_name m) = true /\
-  existsb (fun x => is_reserved is_space (fst x)) (decode_all (b_name m)) = false /\
-  valid_utf8 (b_value m) = true /\ (is_regex (b_type m) = true -> compiles (b_value m) = true).
+(* The matchers the clause speaks about (DESIGN I6): non-empty valid-UTF-8 name, valid-UTF-8 value, a value that
+   compiles when the operator is a regexp one. *)
+Theorem c16_domain_meaning compiles m :
+  dom compiles m <->
+  b_name m <> [] /\ valid_utf8 (b_name m) = true /\ valid_utf8 (b_value m) = true /\
+  (is_regex (b_type m) = true -> compiles (b_value m) = true).
 Proof. reflexivity. Qed.
+
+(* strconv.Unquote inverts strconv.Quote on every valid-UTF-8 string (printable runes raw, the others as
+   backslash-a..v, backslash-x/u/U escapes), for every is_print table that does not call LF printable (if it did,
+   Quote would emit a raw line feed, which Unquote rejects). *)
+Theorem c16_unquote_inverts_quote is_print s :
+  is_print 10 = false -> valid_utf8 s = true -> go_unquote (go_quote is_print s) = Ok s.
+Proof. exact (fun H => go_unquote_quote is_print H s). Qed.
+
+(* UTF-8 mode, FULL: printing any matcher of the domain - whatever its name contains (reserved runes make
+   Matcher.String switch to the Go-quoted form on both sides) and whatever its value contains - and parsing the text
+   back yields the identical matcher; same for a braced list {m1,...,mn} of any length, mixing both printed forms.
+   For every is_space and compiles table, and every is_print table with is_print LF = false. *)
+Theorem c16_utf8_roundtrip is_space is_print compiles m :
+  is_print 10 = false -> dom compiles m ->
+  utf8_matchers is_space compiles (print_b is_space is_print m) = Ok [m].
+Proof. exact (fun H => g_roundtrip_single is_space is_print compiles H m). Qed.
+
+Theorem c16_utf8_roundtrip_list is_space is_print compiles ms :
+  is_print 10 = false -> Forall (dom compiles) ms ->
+  utf8_matchers is_space compiles (print_list_b is_space is_print ms) = Ok ms.
+Proof. exact (fun H => g_roundtrip_list is_space is_print compiles H ms). Qed.
+
+(* The library contracts the remaining clauses use, spelled out. *)
+Theorem c16_contracts_meaning is_space is_print :
+  (print_contract is_print <-> is_print 10 = false) /\
+  (space_contract is_space <->
+   (forall b, re_space b = true -> is_space b = true) /\ is_space 34 = false /\
+   (forall r, is_space r = true -> name_char r = false)).
+Proof. split; reflexivity. Qed.
+
+(* UTF-8-strict and fallback mode, FULL: compat.Matcher and compat.Matchers on the printed text of any matcher of
+   the domain return that matcher; compat.Matchers on the printed list {m1,...,mn} returns the list. In fallback
+   mode this needs - and the proof establishes - that the classic parser never returns something different on a
+   printed text (c16_classic_never_disagrees_on_printed_text). *)
+Theorem c16_utf8_and_fallback_roundtrip is_space is_print compiles m :
+  print_contract is_print -> space_contract is_space -> dom compiles m ->
+  compat_matcher is_space compiles Utf8Strict (print_b is_space is_print m) = Ok m /\
+  compat_matcher is_space compiles Fallback (print_b is_space is_print m) = Ok m /\
+  compat_matchers is_space compiles Utf8Strict (print_b is_space is_print m) = Ok [m] /\
+  compat_matchers is_space compiles Fallback (print_b is_space is_print m) = Ok [m].
+Proof. exact (fun Hp Hs => modes_single is_space is_print compiles Hp Hs m). Qed.
+
+Theorem c16_utf8_and_fallback_roundtrip_list is_space is_print compiles ms :
+  print_contract is_print -> space_contract is_space -> Forall (dom compiles) ms ->
+  compat_matchers is_space compiles Utf8Strict (print_list_b is_space is_print ms) = Ok ms /\
+  compat_matchers is_space compiles Fallback (print_list_b is_space is_print ms) = Ok ms.
+Proof. exact (fun Hp Hs => modes_list is_space is_print compiles Hp Hs ms). Qed.
+
+Theorem c16_classic_never_disagrees_on_printed_text is_space is_print compiles ms :
+  print_contract is_print -> space_contract is_space -> Forall (dom compiles) ms ->
+  classic_matchers is_space compiles (print_list_b is_space is_print ms) = Ok ms \/
+  classic_matchers is_space compiles (print_list_b is_space is_print ms) = Err "bad-format".
+Proof. exact (fun Hp Hs => classic_never_disagrees is_space is_print compiles Hp Hs ms). Qed.
+
+(* Classic mode, FULL: when the name is a classic label name (a letter, underscore or colon, then letters, digits,
+   underscores, colons) and the value is valid UTF-8 (regexp values compile), the classic parser - the regexp
+   recogniser, its unescape loop and, for lists, the quote-aware comma split - returns the identical matcher(s). *)
+Theorem c16_classic_dom_meaning compiles m :
+  classic_dom compiles m <->
+  cname (b_name m) = true /\ valid_utf8 (b_value m) = true /\ (is_regex (b_type m) = true -> compiles (b_value m) = true).
+Proof. reflexivity. Qed.
+
+Theorem c16_classic_roundtrip is_space is_print compiles m :
+  print_contract is_print -> space_contract is_space -> classic_dom compiles m ->
+  compat_matcher is_space compiles Classic (print_b is_space is_print m) = Ok m /\
+  compat_matchers is_space compiles Classic (print_b is_space is_print m) = Ok [m].
+Proof. exact (fun Hp Hs => classic_mode_single is_space is_print compiles Hp Hs m). Qed.
+
+Theorem c16_classic_roundtrip_list is_space is_print compiles ms :
+  print_contract is_print -> space_contract is_space -> Forall (classic_dom compiles) ms ->
+  compat_matchers is_space compiles Classic (print_list_b is_space is_print ms) = Ok ms.
+Proof. exact (fun Hp Hs => classic_mode_list is_space is_print compiles Hp Hs ms). Qed.
+
+(* a classic name is in the domain of the other two modes as well *)
+Theorem c16_classic_dom_in_domain is_space is_print compiles m :
+  print_contract is_print -> space_contract is_space -> classic_dom compiles m -> dom compiles m.
+Proof. exact (fun Hp Hs Hc => proj1 (classic_dom_dom is_space is_print compiles Hp Hs m Hc)). Qed.
 
 (* valid UTF-8 is what Go means by it: decoding and re-encoding every rune gives back the bytes *)
 Theorem c16_valid_utf8_canonical s :
@@ -171,16 +202,33 @@ Example c16_matches_nonvacuous :
   mset_matches re [[mkM MEq "x" "2"]; [mkM MEq "x" "1"]] [("x", "1")] = true.
 Proof. vm_compute. repeat split. Qed.
 
-(* a value with every awkward byte, a multi-byte name, a regexp operator: in the sub-class, and round-trips *)
-Definition ex_sp (r : Z) : bool := (r =? 32) || (r =? 9) || (r =? 10) || (r =? 13) || (r =? 8232).
+(* a value with every awkward byte, a multi-byte name, a regexp operator; a name with reserved runes (Go-quoted
+   form, with a non-printable rune escaped as backslash-u): in the domain, and the list round-trips *)
+Definition ex_sp (r : Z) : bool :=
+  (r =? 32) || (r =? 9) || (r =? 10) || (r =? 11) || (r =? 12) || (r =? 13) || (r =? 133) || (r =? 160) || (r =? 8232).
 Definition ex_m := mkBM MNre (bytes_of_string "日本.x") (bytes_of_string (bs [34;92;10;123;125;44;61;33;126;39;96;32;9;0;195;169;226;128;168]%N)).
+Definition ex_pr (r : Z) : bool := (32 <=? r) && (r <? 127) || (r =? 233).
+Definition ex_q := mkBM MEq (bytes_of_string (bs [97;32;34;92;226;128;168;10]%N)) (bytes_of_string (bs [195;169;0;44;240;159;153;130]%N)).
 Example c16_roundtrip_nonvacuous :
-  (plain ex_sp (fun _ => true) ex_m /\ plain ex_sp (fun _ => true) (mkBM MEq [97] [])) /\
-  utf8_matchers ex_sp (fun _ => true) (print_list_b ex_sp (fun _ => true) [ex_m; mkBM MEq [97] []]) = Ok [ex_m; mkBM MEq [97] []].
+  (dom (fun _ => true) ex_m /\ dom (fun _ => true) ex_q /\ name_reserved ex_sp ex_q = true /\ name_reserved ex_sp ex_m = false) /\
+  ex_pr 10 = false /\
+  utf8_matchers ex_sp (fun _ => true) (print_list_b ex_sp ex_pr [ex_m; ex_q; mkBM MEq [97] []]) = Ok [ex_m; ex_q; mkBM MEq [97] []].
 Proof.
-  unfold plain. repeat split; try (intros _; reflexivity); try (vm_compute; reflexivity);
+  unfold dom. repeat split; try (intros _; reflexivity); try (vm_compute; reflexivity);
     intros E; vm_compute in E; discriminate E.
 Qed.
+(* the contracts are satisfiable (by tables shaped like the real ones), and a list mixing a bare classic name, a
+   bare UTF-8 name and a Go-quoted name round-trips in fallback mode while the classic parser rejects it *)
+Example c16_contracts_nonvacuous :
+  space_contract ex_sp /\ print_contract ex_pr /\
+  compat_matchers ex_sp (fun _ => true) Fallback (print_list_b ex_sp ex_pr [mkBM MEq [97] [34]; ex_m; ex_q]) = Ok [mkBM MEq [97] [34]; ex_m; ex_q] /\
+  classic_matchers ex_sp (fun _ => true) (print_list_b ex_sp ex_pr [mkBM MEq [97] [34]; ex_m; ex_q]) = Err "bad-format" /\
+  classic_matchers ex_sp (fun _ => true) (print_list_b ex_sp ex_pr [mkBM MEq [97] [34]; mkBM MRe [95; 58] [44; 92]]) = Ok [mkBM MEq [97] [34]; mkBM MRe [95; 58] [44; 92]].
+Proof.
+  split; [|split; [reflexivity|vm_compute; repeat split; reflexivity]].
+  unfold space_contract, ex_sp, re_space, name_char, name_start. repeat split; intros; lia.
+Qed.
+
 (* classic-only input: foo=b\ar is accepted by classic, rejected by the UTF-8 parser, still accepted in fallback;
    accepted by both with different results (backslash-t is a TAB for the UTF-8 parser, two characters for classic):
    the classic result is returned;
@@ -198,9 +246,12 @@ Print Assumptions c16_matches_spec.
 Print Assumptions c16_utf8_parser_never_panics_or_loops.
 Print Assumptions c16_no_input_makes_a_parser_panic_or_loop.
 Print Assumptions c16_fallback_spec.
-Print Assumptions c16_roundtrip_partial.
-Print Assumptions c16_roundtrip_list_partial.
-Print Assumptions c16_fallback_roundtrip_partial.
-Print Assumptions c16_classic_roundtrip_partial.
-Print Assumptions c16_all_modes_roundtrip_partial.
+Print Assumptions c16_unquote_inverts_quote.
+Print Assumptions c16_utf8_roundtrip.
+Print Assumptions c16_utf8_roundtrip_list.
+Print Assumptions c16_utf8_and_fallback_roundtrip.
+Print Assumptions c16_utf8_and_fallback_roundtrip_list.
+Print Assumptions c16_classic_never_disagrees_on_printed_text.
+Print Assumptions c16_classic_roundtrip.
+Print Assumptions c16_classic_roundtrip_list.
 Print Assumptions c16_matcherset_spec.
